@@ -87,7 +87,7 @@ def natural_matrix(ctx):
         dict(dev="bar", length_units="m", scale=1e-6, screening=True, tol=1e-3, dt_init=d6, dt_max=0.1, current=4.0, field=0.5,
              solve_time=0.1, k=2),
         # thermalisation before the recorded stage: only recorded frames are stored, the induced potential carries over
-        dict(dev="bar", screening=True, tol=1e-3, dt_init=d6, dt_max=0.1, current=4.0, field=0.5, skip_time=0.08, solve_time=0.1, k=2),
+        dict(dev="bar", screening=True, tol=1e-3, adaptive=False, dt_init=d6, current=4.0, field=0.5, skip_time=0.08, solve_time=0.1, k=2),
         # iteration limit hit -> RuntimeError
         dict(dev="bar", screening=True, tol=1e-4, maxiter=2, dt_init=d6, dt_max=0.1, current=4.0, field=0.5, solve_time=0.3, k=3),
         # screening disabled: induced potential identically zero in every frame
@@ -162,7 +162,7 @@ def run(ctx):
     ktraces = [t for r in kres for t in r]
     naturals = natural_matrix(ctx)
     straces, sacc, ntraces, nacc = sc.replay_and_validate(ctx, scripts, naturals, "C13")
-    kcfg = sc.kernel_cfg(["Accepted", "RandomAgree"])
+    kcfg = sc.kernel_cfg(["RandomAgree", "Accepted"])     # Accepted last: see stepctl.trace_cfg
     kacc = sc.validate(ctx, "ScreenKernel", ktraces, kcfg, "C13/kernel",
                        lambda t: json.dumps({k: v for k, v in t.items() if k != "tlc"}, sort_keys=True)[:300])
     for t in ktraces:
